@@ -43,8 +43,14 @@ type c01env struct {
 	probing  bool        // a started run's message is on its way to server 2: hook points pass
 	probeGot map[int]int // value (>= 2000) -> hand-overs on server 2
 	probeN   int
+	probeT   int    // the tree of the probe under way
 	probeFl  [2]int // flush goroutines of server 2 started / finished while probing
 	local    [2]int // runs started on the receiver and not finished, per tree
+	// the removal of a tree (grace period 1 ms) completes only inside an `expire` op: a removal timer that fires at
+	// another moment (armed by a refused message on a tree no instance uses) waits at its hook point ts.fired
+	expiring [2]bool
+	fireGate [2]chan struct{}
+	ended    bool
 	cond     *sync.Cond
 	rounds   [2][2]uuid.UUID
 	ctl      *sched.Ctl
@@ -79,13 +85,30 @@ func (e *c01env) hook(name string, key interface{}) {
 			return
 		}
 		e.ctl.Reach("m"+strconv.Itoa(m3.V), name)
+	case onet.TreeID:
+		t := e.treeIndex(k)
+		if t < 0 || name != "ts.fired" {
+			return
+		}
+		e.mu.Lock()
+		if (e.probing && e.probeT == t) || e.expiring[t] || e.ended {
+			// server 2 forgets the tree after a probe; the receiver's removal inside `expire`
+			e.mu.Unlock()
+			return
+		}
+		if e.fireGate[t] == nil {
+			e.fireGate[t] = make(chan struct{})
+		}
+		g := e.fireGate[t]
+		e.mu.Unlock()
+		<-g
 	case *onet.Tree:
 		t := e.treeIndex(k.ID)
 		if t < 0 {
 			return
 		}
 		e.mu.Lock()
-		if e.probing {
+		if e.probing && e.probeT == t {
 			// the receiver's own threads and flush goroutines are all parked: this is server 2's overlay
 			if name == "cpm.start" {
 				e.probeFl[0]++
@@ -148,6 +171,7 @@ func (e *c01env) probe(c *h.Ctx, cs *h.Case, t int, pi onet.ProtocolInstance, wa
 	}
 	e.mu.Lock()
 	e.probing = true
+	e.probeT = t
 	e.probeN++
 	v := 2000 + e.probeN
 	e.mu.Unlock()
@@ -276,6 +300,15 @@ func c01exec(c *h.Ctx, cs *h.Case) {
 	}
 	onet.VerifSetHook(e.hook)
 	defer func() {
+		e.mu.Lock()
+		e.ended = true
+		for t := range e.fireGate {
+			if e.fireGate[t] != nil {
+				close(e.fireGate[t])
+				e.fireGate[t] = nil
+			}
+		}
+		e.mu.Unlock()
 		e.ctl.ReleaseAll()
 		onet.VerifSetHook(nil)
 		fix.Prepare = nil
@@ -468,6 +501,13 @@ func c01exec(c *h.Ctx, cs *h.Case) {
 				cs.Impl = append(cs.Impl, "disabled")
 				return true
 			}
+			e.mu.Lock()
+			e.expiring[t] = true
+			if e.fireGate[t] != nil {
+				close(e.fireGate[t])
+				e.fireGate[t] = nil
+			}
+			e.mu.Unlock()
 			for _, rec := range mine {
 				rec.Tni.Done()
 			}
@@ -484,6 +524,7 @@ func c01exec(c *h.Ctx, cs *h.Case) {
 			}
 			e.mu.Lock()
 			e.local[t] = 0
+			e.expiring[t] = false
 			e.mu.Unlock()
 			cs.Impl = append(cs.Impl, e.obs(t))
 		case "flush", "reflush":
@@ -555,6 +596,13 @@ func c01exec(c *h.Ctx, cs *h.Case) {
 				// wait for the peer
 				e.mu.Lock()
 				loc, running := e.local[t], e.running[t]
+				for k := range e.ctl.Parked() {
+					if strings.HasPrefix(k, "m") {
+						if m, _ := strconv.Atoi(k[1:]); e.treeOf[m] == t {
+							running = k // an arrival thread of this tree has not finished
+						}
+					}
+				}
 				e.mu.Unlock()
 				if n := e.ov.VerifPendingCount(e.trees[t].ID); loc > 0 && running == "" && n > 0 {
 					cs.Fail("stranded-until-answer", fmt.Sprintf("%d message(s) of tree %d stay parked on a server that runs an instance on that tree, until the peer answers the tree request (tree %s)",
